@@ -191,8 +191,11 @@ def main():
     violations, samples = [], {}
     evaluations = returned = raised = skipped = 0
     seconds = collections.Counter()
+    distincts = collections.defaultdict(set)
     for r in results:
         seconds.update(r.get("seconds", {}))
+        for kk, vv in r.get("distincts", {}).items():
+            distincts[kk].update(vv)
         counters.update(r["counters"])
         calls.update(r["calls"])
         nontrivial.update(r["nontrivial"])
@@ -268,6 +271,7 @@ def main():
             "anchor_functions_not_executed": anchors_missed,
             "optional_cases_skipped_for_time_budget": skipped,
             "cpu_seconds_per_case_kind": {k: round(v, 2) for k, v in seconds.items()},
+            "distinct_observations": {k: len(v) for k, v in sorted(distincts.items())},
             "shards": nshards,
             "inconclusive": inconclusive,
             "known_findings_observed": sorted(seen_known),
